@@ -1,0 +1,27 @@
+//go:build !verif
+
+package gojq
+
+// Optimization sites of the compiler which can be switched off with the verif
+// build tag. Without the tag the switches are constant false.
+const (
+	verifSiteAssignSetpath = iota
+	verifSiteBindExp
+	verifSiteIfEmptyCond
+	verifSiteIfConst
+	verifSiteIndexKey
+	verifSiteConstObject
+	verifSiteConstArray
+	verifSiteUnaryNumber
+	verifSiteInlineIdentity
+	verifSiteInlineOne
+	verifSiteCallExp
+	verifSiteTailRec
+	verifSitePeepPop
+	verifSitePeepConst
+	verifSitePeepJump
+)
+
+func verifSkip(int) bool { return false }
+
+func verifSkipInline(int) bool { return false }
